@@ -282,6 +282,15 @@ def gen_model(rng, foreign=True):
     m.omit_unused_carriers = rng.random() < 0.12
     # what cbindgen's `header`, `include_guard` and `autogen_warning` options put before the includes
     m.preamble = {"license": rng.random() < 0.25, "guard": rng.random() < 0.2, "warning": rng.random() < 0.2}
+    # an item that is generic over the context (cbindgen prints the type parameter's name, `Context`):
+    # the tool monomorphises it for every context kind the header mentions
+    m.generic_ctx = None
+    if rng.random() < 0.35:
+        tn = rng.choice(names)
+        used = {i.cont for i in m.insts if i.kind == "obj" and i.name == tn}
+        free = [c for c in ("Box", "Mut", "Ref") if c not in used]
+        if free:
+            m.generic_ctx = (tn, rng.choice(free))
     cfg = {}
     if rng.random() < 0.5:
         cfg["default_container"] = rng.choice(["Box", "Mut"])
@@ -333,7 +342,7 @@ def render(model):
         pos += 1
         items.append((pos, txt))
 
-    uses_box = any(i.cont == "Box" for i in model.insts) or not getattr(model, "omit_unused_carriers", False)
+    uses_box = any(i.cont == "Box" for i in model.insts) or not getattr(model, "omit_unused_carriers", False) or (getattr(model, "generic_ctx", None) or (None, None))[1] == "Box"
     uses_arc = any(i.ctx == "Arc" for i in model.insts) or not getattr(model, "omit_unused_carriers", False)
     uses_cb = any(k == "callback" for t in model.traits.values() for me in t.methods for (_, _, k) in me.args)
     uses_slice = any(k == "slice" for t in model.traits.values() for me in t.methods for (_, _, k) in list(me.args) + [(None, None, me.ret[1])])
@@ -381,6 +390,12 @@ def render(model):
             add(doc_group(inst.name, sm + so) + f"typedef struct {on} {{\n" + "".join(f"    const struct {vtbl_struct_name(t, inst, model)} *vtbl_{t.lower()};\n" for t in sm + so) + f"    struct {cn} container;\n}} {on};\n")
             alias = f"{inst.name}{'Arc' if inst.ctx == 'Arc' else ''}{inst.cont}"
             add(f"/**\n * Opaque {inst.cont} CGlue trait group {inst.name}.\n */\ntypedef struct {on} {alias};\n")
+    gc = getattr(model, "generic_ctx", None)
+    if gc and any(i.kind == "obj" and i.name == gc[0] for i in model.insts):
+        t, c = gc
+        cm = CONT_TY[c].mangle(False)
+        add(DOC_RETTMP_ZST + f"typedef struct {t}RetTmp_Context {t}RetTmp_Context;\n")
+        add(DOC_CONTAINER + f"typedef struct CGlueObjContainer_{cm}__Context_____{t}RetTmp_Context {{\n    {INSTANCE_FIELD[c]}\n    Context context;\n    struct {t}RetTmp_Context ret_tmp;\n}} CGlueObjContainer_{cm}__Context_____{t}RetTmp_Context;\n")
     # interleave foreign declarations at generated positions (never inside an item)
     n = len(items)
     all_items = list(items)
